@@ -1,4 +1,5 @@
 import Driver.Syntax
+import Pcore.Model.Print
 /-!
 Driver ops for C05 (syntax in harness/c05):
   quote <xS> | rxquote <xS> | rt-str <xS> | rt-rx <xS> <compiles t|f> (<xBADRX>*) | rt-int <N>
@@ -26,6 +27,22 @@ def isInt (i : Int) : Expr → Bool
   | .int j => i == j
   | _ => false
 
+/-- values of the modelled fragment: u | d | (b _) | (i _) | (f BITS xTEXT) | (s _) | (r _) | (a v*) | (h (k v)*) -/
+partial def valOf : Sexp → Option Val
+  | .atom "u" => some .undef
+  | .atom "d" => some .dflt
+  | .list [.atom "b", b] => b.bool?.map .bool
+  | .list [.atom "i", n] => n.int?.map .int
+  | .list [.atom "f", n, t] => do let b ← n.nat?; let x ← strArg t; pure (.float b x)
+  | .list [.atom "s", s] => (strArg s).map .str
+  | .list [.atom "r", s] => (strArg s).map .regexp
+  | .list (.atom "a" :: es) => (es.mapM valOf).map .arr
+  | .list (.atom "h" :: es) =>
+      (es.mapM fun (e : Sexp) => match e with
+        | Sexp.list [k, v] => do let k' ← valOf k; let v' ← valOf v; pure (k', v')
+        | _ => none).map .hash
+  | _ => none
+
 def exec : List Sexp → String
   | [.atom "quote", s] =>
     match strArg s with
@@ -49,6 +66,12 @@ def exec : List Sexp → String
         let text := regexpQuote x
         strHex text ++ " rt=" ++ boolStr (parsesTo (mkEnv bl) text (isRx x))
     | _, _, _ => "bad-op"
+  | [.atom "rt-val", v, bad] =>
+    match valOf v, badList bad with
+    | some x, some bl =>
+      let text := printVal x
+      strHex text ++ " rt=" ++ boolStr (parsesTo (mkEnv bl) text (fun e => Expr.beq e (exprOf x)))
+    | _, _ => "bad-op"
   | [.atom "rt-int", n] =>
     match n.int? with
     | some i =>
